@@ -185,6 +185,25 @@ func Files() []File {
 		{Name: "WithReq", Fields: []F{{Name: "a", Num: 1, Kind: "int32", Card: "req"}}},
 		{Name: "NoReq", Fields: []F{{Name: "b", Num: 1, Kind: "int32", Card: "opt"}}},
 	}, nil, nil)
+	atom("a2reqnested", "proto2", []string{"required", "required-only-in-nested"}, nil, []M{
+		{Name: "Outer", Fields: []F{{Name: "x", Num: 1, Kind: "int32", Card: "opt"}, {Name: "i", Num: 2, Kind: "message", Card: "opt", Type: "Outer.Inner"},
+			{Name: "many", Num: 3, Kind: "message", Card: "rep", Type: "Outer.Inner"}},
+			Nested: []M{{Name: "Inner", Fields: []F{{Name: "a", Num: 1, Kind: "int32", Card: "req"}, {Name: "b", Num: 2, Kind: "string", Card: "opt"}}}}},
+	}, nil, nil)
+	atom("a2reqsamename", "proto2", []string{"required", "same-short-name-nested"}, nil, []M{
+		{Name: "Order", Fields: []F{{Name: "items", Num: 1, Kind: "message", Card: "rep", Type: "Order.Item"}, {Name: "first", Num: 2, Kind: "message", Card: "opt", Type: "Order.Item"}},
+			Nested: []M{{Name: "Item", Fields: []F{{Name: "id", Num: 1, Kind: "int32", Card: "req"}, {Name: "note", Num: 2, Kind: "string", Card: "opt"}}}}},
+		{Name: "Invoice", Fields: []F{{Name: "it", Num: 1, Kind: "message", Card: "opt", Type: "Invoice.Item"}},
+			Nested: []M{{Name: "Item", Fields: []F{{Name: "s", Num: 1, Kind: "string", Card: "opt"}}}}},
+		{Name: "Other", Fields: []F{{Name: "must", Num: 1, Kind: "bool", Card: "req"}}},
+	}, nil, nil)
+	atom("a2reqsamename2", "proto2", []string{"required", "same-short-name-nested"}, nil, []M{
+		{Name: "Invoice", Fields: []F{{Name: "it", Num: 1, Kind: "message", Card: "opt", Type: "Invoice.Item"}},
+			Nested: []M{{Name: "Item", Fields: []F{{Name: "s", Num: 1, Kind: "string", Card: "opt"}}}}},
+		{Name: "Order", Fields: []F{{Name: "items", Num: 1, Kind: "message", Card: "rep", Type: "Order.Item"}},
+			Nested: []M{{Name: "Item", Fields: []F{{Name: "id", Num: 1, Kind: "int32", Card: "req"}}}}},
+		{Name: "Other", Fields: []F{{Name: "must", Num: 1, Kind: "bool", Card: "req"}}},
+	}, nil, nil)
 	for _, k := range Kinds15 {
 		atom("a3k"+k, "proto3", []string{"kind-" + k}, nil, []M{{Name: "K", Fields: []F{
 			{Name: "v", Num: 1, Kind: k, Card: "imp"}, {Name: "r", Num: 2, Kind: k, Card: "rep"}, {Name: "m", Num: 3, Kind: "map", MapKey: "string", MapVal: k},
@@ -195,6 +214,9 @@ func Files() []File {
 	}
 	return files
 }
+
+// LegacyV1Bases are the corpus files also generated for the legacy google-v1 flavour ("gv1").
+var LegacyV1Bases = map[string]bool{"p3": true, "p2": true, "p2req": true, "p2ext": true}
 
 // ByBase returns the file with the given base name.
 func ByBase(base string) (File, error) {
